@@ -27,7 +27,7 @@ FMTS = ["h5", "npz", "json"]
 VARIANTS = {"TensorMesh": 2, "Model": 3, "Field": 3, "TxElectricPoint": 1,
             "TxMagneticPoint": 1, "TxElectricDipole": 3, "TxMagneticDipole": 2,
             "TxElectricWire": 1, "RxElectricPoint": 2, "RxMagneticPoint": 2,
-            "Survey": 3, "Simulation": 3}
+            "Survey": 3, "Simulation": 6}
 SCALARS = ["none", "bool", "int", "float", "complex", "str"]
 ARRAYS = ["arr_f", "arr_c", "arr_i"]
 _SIM = {}
@@ -146,12 +146,34 @@ def make_sim(var, rng):
                           [1.0, 2.0], noise_floor=1e-16, relative_error=0.05)
     model = emg3d.Model(grid, np.linspace(0.5, 2, grid.n_cells).reshape(
         grid.shape_cells, order='F'), mapping='Conductivity')
-    sim = emg3d.Simulation(survey, model, gridding='same', max_workers=1,
+    # 4: provided grid ('input'), computed; 5: provided grids ('dict'),
+    # plain; 6: automatic gridding ('frequency'), grids built
+    def cg(n):
+        h = np.ones(n)*800./n
+        return emg3d.TensorMesh([h, np.ones(8)*100., np.ones(8)*100.],
+                                (-400, -400, -400))
+    gkw = {1: dict(gridding='same'), 2: dict(gridding='same'),
+           3: dict(gridding='same'),
+           4: dict(gridding='input', gridding_opts=cg(16)),
+           5: dict(gridding='dict', gridding_opts={
+               'TxED-1': {'f-1': cg(8), 'f-2': cg(16)}}),
+           6: dict(gridding='frequency', gridding_opts={
+               'domain': ([-300, 300], [-300, 300], [-300, 100]),
+               'min_width_limits': ([100, 200], [100, 200], [100, 200]),
+               'stretching': [1.0, 2.0], 'center_on_edge': False,
+               'max_buffer': 2000, 'cell_numbers': [8, 12, 16, 24, 32]}),
+           }[var]
+    sim = emg3d.Simulation(survey, model, max_workers=1, **gkw,
                            receiver_interpolation='linear', name="c17",
                            solver_opts={'plain': True, 'tol': 1e-4,
                                         'maxit': 20},
                            tqdm_opts={'disable': True})
-    if var >= 2:
+    if var == 6:
+        for f in ('f-1', 'f-2'):
+            sim.get_grid('TxED-1', f)
+    if var == 4:
+        sim.compute()
+    if var in (2, 3):
         sim.compute(observed=True, add_noise=False)
         sim.model = emg3d.Model(grid, 1.0, mapping='Conductivity')
         sim.clean('computed')
